@@ -3,11 +3,11 @@ package main
 // C01 — List and Array behave as an ordinal-indexed sequence.
 
 import (
-	"sort"
 	"fmt"
 	"go/ast"
 	"go/token"
 	"go/types"
+	"sort"
 	"strings"
 
 	"golang.org/x/tools/go/cfg"
@@ -1149,7 +1149,7 @@ func checkOrdinalArgs(c *Ctx, r *Rec, rule string, info *types.Info, fd *ast.Fun
 				})
 				reaches, _ := g.exists(pathQuery{
 					edgeOK: func(cond ast.Expr, pol bool) bool { return pol || !stepping[cond] },
-					from: ipt,
+					from:   ipt,
 					stop: func(n ast.Node) bool {
 						if containsNode(n, call) {
 							return false
